@@ -44,11 +44,12 @@ def _children_defs(body):
                 yield from _children_defs(h.body)
 
 
-def find(qual, repo=None):
+def find(qual, repo=None, want_outer=False):
     """Return (node, source_segment, info) for a qualified path."""
     relpath, _, path = qual.partition("::")
     tree, src = module_ast(relpath, repo)
     node = tree
+    outer, inner_path = None, []
     for part in path.split("."):
         name, _, ordinal = part.partition("#")
         ordinal = int(ordinal) if ordinal else 1
@@ -57,6 +58,10 @@ def find(qual, repo=None):
         if len(found) < ordinal:
             raise ExtractError("%s: definition %r (#%d) not found" % (qual, name, ordinal))
         node = found[ordinal - 1]
+        if outer is not None:
+            inner_path.append(part)
+        elif isinstance(node, (ast.FunctionDef, ast.AsyncFunctionDef)):
+            outer = node
     seg = ast.get_source_segment(src, node) or ""
     info = {
         "qualified": qual,
@@ -64,7 +69,40 @@ def find(qual, repo=None):
         "lines": [node.lineno, getattr(node, "end_lineno", node.lineno)],
         "sha1": hashlib.sha1(seg.encode()).hexdigest(),
     }
+    if want_outer:
+        return node, seg, info, outer, inner_path
     return node, seg, info
+
+
+def find_outer(qual, repo=None):
+    """(outermost enclosing function node, remaining path parts, module source, relative path) of a qualified path"""
+    relpath, _, path = qual.partition("::")
+    tree, src = module_ast(relpath, repo)
+    node = tree
+    parts = path.split(".")
+    for i, part in enumerate(parts):
+        name, _, ordinal = part.partition("#")
+        ordinal = int(ordinal) if ordinal else 1
+        found = [d for d in _children_defs(node.body) if d.name == name]
+        if len(found) < ordinal:
+            raise ExtractError("%s: definition %r (#%d) not found" % (qual, name, ordinal))
+        node = found[ordinal - 1]
+        if isinstance(node, (ast.FunctionDef, ast.AsyncFunctionDef)):
+            return node, parts[i + 1:], src, relpath
+    raise ExtractError("%s: no function on the path" % qual)
+
+
+def find_in(outer, inner_path):
+    """the nested definition reached from `outer` by the remaining parts of a qualified path"""
+    node = outer
+    for part in inner_path:
+        name, _, ordinal = part.partition("#")
+        ordinal = int(ordinal) if ordinal else 1
+        found = [d for d in _children_defs(node.body) if d.name == name]
+        if len(found) < ordinal:
+            raise ExtractError("nested definition %r (#%d) not found" % (name, ordinal))
+        node = found[ordinal - 1]
+    return node
 
 
 def from_source(text, name=None):
